@@ -878,6 +878,7 @@ uint64_t sim_machine_time_stamp(void) {
     if (fault("clock", 0.02)) g_now += 1000000 + g_rng_clock.below(9000000);
     return g_now * 3;  // 3 GHz
 }
+void sim_probe(const char* name) { if (g_active) sim::probe(name); }
 int sim_spin_knob(int dflt) { return (g_active && g_cfg.spin_knob >= 0) ? g_cfg.spin_knob : dflt; }
 
 void* sim_mmap(void* addr, size_t len, int prot, int flags, int fd, off_t off) {
